@@ -25,7 +25,8 @@ Min2(a, b) == IF a < b THEN a ELSE b
 
 AutoNames == <<"clr", "dis", "integ", "time", "en", "evscan">>   \* priority order of TaskStates::next
 
-MkCb(t, k, n, i, str) == [t |-> t, k |-> k, n |-> n, i |-> i, s |-> str]
+MkCb(t, k, n, i, str) == [t |-> t, k |-> k, n |-> n, i |-> i, s |-> str, x |-> ""]
+MkFail(t, a, name, err) == [t |-> t, k |-> "ai", n |-> "task_fail", i |-> <<a>>, s |-> name, x |-> err]
 
 -----------------------------------------------------------------------------
 (* state *)
@@ -97,7 +98,7 @@ UserId(task) == IF "id" \in DOMAIN task THEN task.id ELSE 0
 
 AutoFailure(s, a, name) ==
     LET x == s.A[a].auto[name]
-        d == IF x.st = "Failed" THEN Min2(2 * x.last, Assocs[a].rmax) ELSE Assocs[a].rmin
+        d == IF x.st = "Failed" /\ "H_NoBackoff" \notin DEVM THEN Min2(2 * x.last, Assocs[a].rmax) ELSE Assocs[a].rmin
     IN [s EXCEPT !.A[a].auto[name] = [st |-> "Failed", last |-> d, next |-> s.now + d]]
 AutoDone(s, a, name) == [s EXCEPT !.A[a].auto[name] = AutoIdle]
 AutoDemand(s, a, name) == IF s.A[a].auto[name].st = "Idle" THEN [s EXCEPT !.A[a].auto[name] = AutoPending] ELSE s
@@ -119,7 +120,7 @@ ProcessIin(s, a, iin) ==
 \* Poll::reset_next: next = completion + period
 PollDone(s, a, pid) ==
     LET ps == s.A[a].polls
-    IN [s EXCEPT !.A[a].polls = [i \in 1..Len(ps) |-> IF ps[i].id = pid THEN [ps[i] EXCEPT !.next = s.now + ps[i].period] ELSE ps[i]]]
+    IN [s EXCEPT !.A[a].polls = [i \in 1..Len(ps) |-> IF ps[i].id = pid THEN [ps[i] EXCEPT !.next = (IF "H_PollPeriodFromStart" \in DEVM THEN @ ELSE s.now) + ps[i].period] ELSE ps[i]]]
 
 \* task.on_task_error (what happens to the task's owner) + notify_task_fail
 TaskError(s, a, task, err) ==
@@ -136,7 +137,7 @@ TaskError(s, a, task, err) ==
 
 \* run_task epilogue: notify_task_fail and conversion of run-ending errors
 Fail(s, a, task, err) ==
-    Cb(TaskError(s, a, task, err), MkCb(s.now, "ai", "task_fail", <<Addr(a)>>, TaskName(task) \o ":" \o err))
+    Cb(TaskError(s, a, task, err), MkFail(s.now, Addr(a), TaskName(task), err))
 
 ReadComplete(s, a, task) ==
     CASE task.t = "integ" -> [AutoDone(s, a, "integ") EXCEPT !.A[a].integDone = TRUE]
@@ -184,7 +185,7 @@ LinkNext(s, a) ==
 \* Association::get_next_task
 AssocNext(s, a) ==
     LET au == AutoNext(s, a)
-    IN IF au.k # "none" THEN au
+    IN IF au.k = "now" \/ (au.k = "at" /\ "H_PollsDuringStartup" \notin DEVM) THEN au
        ELSE LET p == PollNext(s, a) ln == LinkNext(s, a)
             IN CASE p.k = "now" -> p
                  [] p.k = "at" -> (CASE ln.k = "none" -> p [] ln.k = "now" -> ln
@@ -196,7 +197,7 @@ MoveLast(prio, a) == SelectSeq(prio, LAMBDA x : x # a) \o <<a>>
 \* send_request: increment the association's sequence number and write the request
 StartTask(s, a, task) ==
     LET seq == s.A[a].seq
-        s0 == [s EXCEPT !.prio = MoveLast(@, a)]
+        s0 == [s EXCEPT !.prio = IF "H_NoRotate" \in DEVM THEN @ ELSE MoveLast(@, a)]
         s1 == [s0 EXCEPT !.A[a].seq = S16(@ + 1)]
         s2 == Cb(s1, MkCb(s.now, "ai", "task_start", <<Addr(a), FcOf(task), seq>>, TaskName(task)))
     IN IF task.t = "link"
@@ -214,10 +215,12 @@ Schedule(s) ==
     LET live == SelectSeq(s.prio, LAMBDA a : s.A[a].exists)
         \* user requests first, in priority (round-robin) order
         withQ == SelectSeq(live, LAMBDA a : s.A[a].queue # <<>>)
-    IN IF withQ # <<>> THEN
+            pollFirst == "H_PollFirst" \in DEVM /\ \E i \in 1..Len(live) : PollNext(s, live[i]).k = "now"
+    IN IF withQ # <<>> /\ ~pollFirst THEN
             LET a == withQ[1]
-                task == Head(s.A[a].queue)
-            IN StartTask([s EXCEPT !.A[a].queue = Tail(@)], a, task)
+                lifo == "H_LifoQueue" \in DEVM
+                task == IF lifo THEN Last(s.A[a].queue) ELSE Head(s.A[a].queue)
+            IN StartTask([s EXCEPT !.A[a].queue = IF lifo THEN Front(@) ELSE Tail(@)], a, task)
        ELSE
             LET nx == [i \in 1..Len(live) |-> AssocNext(s, live[i])]
                 nowIx == SelectSeq([i \in 1..Len(live) |-> i], LAMBDA i : nx[i].k = "now")
@@ -239,7 +242,7 @@ HandleUnsol(s, f) ==
     IN IF a = 0 \/ ~s.A[a].exists THEN s
        ELSE
        LET s1 == ProcessIin(s, a, f.iin)
-           ok == ~Assocs[a].integ \/ s1.A[a].integDone \/ f.body = "empty"
+           ok == ~Assocs[a].integ \/ s1.A[a].integDone \/ f.body = "empty" \/ "H_UnsolUngated" \in DEVM
            dup == s1.A[a].lastUnsol.has /\ s1.A[a].lastUnsol.seq = f.seq /\ s1.A[a].lastUnsol.hash = f.hash
                   /\ s1.A[a].lastUnsol.iin = f.iin /\ s1.A[a].lastUnsol.con = f.con
            s2 == IF ~ok THEN s1
@@ -253,7 +256,7 @@ HandleUnsol(s, f) ==
                               IN Cb(s4, MkCb(s.now, "ai", "unsol", <<Addr(a), 0, f.seq>>, ""))
        IN IF ok /\ f.con THEN Confirm(s2, a, f.seq, TRUE) ELSE s2
 
-LinkActivity(s, a) == IF a = 0 \/ ~s.A[a].exists \/ Assocs[a].ka < 0 THEN s ELSE [s EXCEPT !.A[a].ks = s.now + Assocs[a].ka]
+LinkActivity(s, a) == IF a = 0 \/ ~s.A[a].exists \/ Assocs[a].ka < 0 \/ "H_KeepAliveIgnoresActivity" \in DEVM THEN s ELSE [s EXCEPT !.A[a].ks = s.now + Assocs[a].ka]
 
 \* non-READ task: handle a response that passed validation
 HandleNonRead(s, a, task, f) ==
@@ -264,7 +267,8 @@ HandleNonRead(s, a, task, f) ==
             IN [st |-> s1, next |-> [t |-> "none"], err |-> ""]
       [] task.t = "cmd" ->
             IF f.body = "bad" THEN [st |-> Done(s, task.id, "MalformedResponse"), next |-> [t |-> "none"], err |-> "MalformedResponse"]
-            ELSE IF f.body # "echo" THEN [st |-> Done(s, task.id, "Response"), next |-> [t |-> "none"], err |-> "UnexpectedResponseHeaders"]
+            ELSE IF f.body # "echo" /\ ~("H_OperateAnyReply" \in DEVM /\ task.step = "select") /\ ~("H_SuccessAnyReply" \in DEVM /\ task.step # "select")
+                 THEN [st |-> Done(s, task.id, "Response"), next |-> [t |-> "none"], err |-> "UnexpectedResponseHeaders"]
             ELSE IF task.step = "select" THEN [st |-> s, next |-> [task EXCEPT !.step = "operate"], err |-> ""]
             ELSE [st |-> Done(s, task.id, "ok"), next |-> [t |-> "none"], err |-> ""]
       [] task.t = "restart" ->
@@ -295,7 +299,7 @@ AwaitRx(s) ==
         \* TransportResponse::Error: the task fails
         [Fail(s0, a, task, "Transport") EXCEPT !.pc = "Sched", !.cur = NoCur]
     ELSE IF f.fc = 130 THEN HandleUnsol(sL, f)
-    ELSE IF AssocOf(f) # a \/ f.seq # s.cur.seq THEN sL
+    ELSE IF AssocOf(f) # a \/ (f.seq # s.cur.seq /\ "H_AnySeq" \notin DEVM) THEN sL
     ELSE IF IsRead(task) THEN
         \* process_read_response
         IF f.fir /\ ~s.cur.first THEN [Fail(sL, a, task, "UnexpectedFir") EXCEPT !.pc = "Sched", !.cur = NoCur]
@@ -324,7 +328,7 @@ AwaitRx(s) ==
             s1 == ProcessIin(sc, a, f.iin)
             h == HandleNonRead(s1, a, task, f)
         IN IF h.err # "" THEN
-                [Cb(h.st, MkCb(s.now, "ai", "task_fail", <<Addr(a)>>, TaskName(task) \o ":" \o h.err))
+                [Cb(h.st, MkFail(s.now, Addr(a), TaskName(task), h.err))
                     EXCEPT !.pc = "Sched", !.cur = NoCur]
            ELSE IF h.next.t # "none" THEN
                 \* next step of a multi-step task: send the next request at once (no task_start callback)
